@@ -559,8 +559,14 @@ fn run_case(ctx: &mut Ctx<'_>, case: &Value) -> Result<u64, String> {
         let clean = att.probs.is_empty() && flat == expect_flat;
         // the escape timer runs in real time: when a fragment ending in ESC stayed the last thing written for long,
         // the other documented outcome (a lone Esc key) is legitimate - run the case again
-        if clean || tries >= 6 || att.esc_window < Duration::from_millis(12) {
+        if clean || att.esc_window < Duration::from_millis(12) {
             break;
+        }
+        if tries >= 25 {
+            // every attempt left a lone ESC waiting for 12 ms or more: the other documented outcome (Esc key) is legitimate
+            // each time, the machine is too slow to decide this case
+            ctx.stat("undecided_for_timing", 1);
+            return Ok(0);
         }
         ctx.stat("retries_for_timing", 1);
         tries += 1;
